@@ -58,20 +58,27 @@ type bucketObjectIterator struct {
 	done     bool
 }
 
+// Seek positions the iterator so that the next call to Next() yields the
+// version that follows the version with the given ID. It returns false if
+// there is no such version.
 func (b *bucketObjectIterator) Seek(key gofakes3.VersionID) bool {
-	if b.iter.Seek(key) {
+	// skiplist's Seek stops at the first key that is not less than the one
+	// sought, so the key it stopped at must be compared:
+	if b.iter != nil && b.iter.Seek(key) && b.iter.Key().(gofakes3.VersionID) == key {
 		return true
 	}
 
-	b.iter = nil
-	if b.data != nil && b.data.versionID == key {
-		return true
+	if b.iter != nil {
+		b.iter.Close()
+		b.iter = nil
 	}
+	found := b.data != nil && b.data.versionID == key
 
+	// The current version is the last one; nothing follows it:
 	b.data = nil
 	b.done = true
 
-	return false
+	return found
 }
 
 func (b *bucketObjectIterator) Next() bool {
